@@ -452,7 +452,7 @@ def shared_state(ctx):
     if w is not None:
         R.rule("C18-D2b reviewed exception", 1, "the allow-listed wrapper update has the reviewed shape")
         wo = Evaluator(repo, inline_depth=0).outcomes(w)
-        effs = [e for o in wo for e in o.effects if isinstance(e, App) and e.op.startswith("eff:") and e.op != "eff:assume"]
+        effs = [e for o in wo for e in o.effects if isinstance(e, App) and e.op.startswith("eff:") and e.op not in ("eff:assume", "eff:log")]
         shape = len(wo) == 1 and len(effs) == 2 and all(e.op == "eff:call" for e in effs) \
             and effs[0].args[0] == App("call:functools.update_wrapper", (Sym("free:Cbstr"), Sym("free:cls"), App("kw", (Const("updated"), Const([]))))) \
             and isinstance(effs[1].args[0], App) and effs[1].args[0].op == "supercall:__init__"
